@@ -488,6 +488,16 @@ func RunCheck(id, tier string, seed int64) int {
 	}
 
 	// crashes become violations after confirmation (5 fresh executions)
+	if len(crashes) > 3 {
+		res.Caps = append(res.Caps, fmt.Sprintf("%d worker losses; only the first 3 were confirmed and reported", len(crashes)))
+		sort.Slice(crashes, func(i, j int) bool {
+			if crashes[i].space != crashes[j].space {
+				return crashes[i].space < crashes[j].space
+			}
+			return crashes[i].index < crashes[j].index
+		})
+		crashes = crashes[:3]
+	}
 	for _, cr := range crashes {
 		sp := spaces[cr.space]
 		v := Violation{Property: id, Tier: tier, Seed: seed, Space: sp.Name, Index: cr.index,
